@@ -608,6 +608,7 @@ func c05(r *core.Run) {
 	r.Rule("C05/R3", "user-sized fields validated at the door: MsgPostFile.FileSize and .MaxProofs are rejected below 1 by ValidateBasic, an overflowing product is rejected by the division form, and the wasm entry validates before calling the handler")
 	r.Rule("C05/R4", "no explicit panic, no Must* on non-constant input and no slice allocation sized by anything but a constant or the length of an existing collection in scope (codec Must(Un)Marshal of stored values excepted, see C18/R1)")
 	r.Rule("C05/R7", "no panicking coin subtraction: every sdk.Coins.Sub / Coin.Sub / SubAmount / DecCoins.Sub in scope lies on all paths behind an IsAllGTE / IsGTE test of the same operands")
+	r.Rule("C05/R8", "block processing keeps the unbounded gas meter: no function in BeginBlock scope creates a bounded meter (NewGasMeter) or installs a meter other than a fresh NewInfiniteGasMeter with WithGasMeter / WithBlockGasMeter — a bounded meter panics with ErrorOutOfGas once the iterated state outgrows the budget, and begin-block has no recover")
 	r.Rule("C05/R6", "no panicking narrowing conversion (Int.Int64, Dec.TruncateInt64, ...) in scope is applied to an accumulator — a value that depends on its own previous value through a loop or through a variable updated by a callback: such a sum grows with the state and is bounded by nothing a message validates")
 	r.Rule("C05/R5", "constant indices in scope are behind a length guard, or are index 0 of a strings.Split result")
 	bb, eb := p.BlockEntries()
@@ -627,6 +628,7 @@ func c05(r *core.Run) {
 	r.Extra["scope_functions"] = len(scope)
 	r.Floor("C05/R0", len(scope), 30, "functions in BeginBlock scope")
 	r.Extra["coin_subtractions_in_scope"] = coinSubtractionsGuarded(r, "C05/R7", core.SortedFuncs(scope))
+	r.Extra["gas_meter_sites_in_scope"] = noBoundedMeterInBlockScope(r, "C05/R8", core.SortedFuncs(scope))
 	r.Extra["narrowing_conversions_in_scope"] = narrowingOfAccumulators(r, "C05/R6", core.SortedFuncs(scope))
 	c := &c05ctx{r: r, p: p, scope: scope, reach: reach, memo: map[ssa.Value]int{}, why: map[ssa.Value]string{}, door: map[string]bool{}}
 	// ---- R3
@@ -826,4 +828,46 @@ func sizeOfCollections(v ssa.Value, depth int) bool {
 		}
 	}
 	return false
+}
+
+// noBoundedMeterInBlockScope: begin-block runs on the infinite gas meter the SDK installs; store reads there are
+// charged but can never exhaust it. A bounded meter created or installed inside the scope turns the size of the
+// iterated state (user-controlled: number and size of stored records) into a panic in gaskv.
+func noBoundedMeterInBlockScope(r *core.Run, rule string, funcs []*ssa.Function) int {
+	p := r.Prog
+	n := 0
+	for _, fn := range funcs {
+		allInstrs(fn, func(in ssa.Instruction) {
+			c, ok := in.(ssa.CallInstruction)
+			if !ok {
+				return
+			}
+			name := core.CalleeFullName(c)
+			switch {
+			case strings.HasSuffix(name, ".NewGasMeter"):
+				n++
+				r.Violation(rule, core.FnName(fn)+":bounded-gas-meter", p.InstrPos(in), "a bounded gas meter is created in block processing: every store read under it is charged and the meter panics (ErrorOutOfGas) once the state read outgrows the budget; begin-block has no recover, so the chain halts")
+			case strings.HasSuffix(name, "Context).WithGasMeter") || strings.HasSuffix(name, "Context).WithBlockGasMeter"):
+				n++
+				args := c.Common().Args
+				arg := args[len(args)-1]
+				for i := 0; i < 4; i++ {
+					if mi, ok := arg.(*ssa.MakeInterface); ok {
+						arg = mi.X
+					} else if ci, ok := arg.(*ssa.ChangeInterface); ok {
+						arg = ci.X
+					} else {
+						break
+					}
+				}
+				inf := false
+				if ac, ok := arg.(*ssa.Call); ok && strings.HasSuffix(core.CalleeFullName(ac), ".NewInfiniteGasMeter") {
+					inf = true
+				}
+				r.Check(inf, rule, core.FnName(fn)+":installs-gas-meter", p.InstrPos(in), "the installed meter is a fresh infinite meter", "block processing installs a gas meter that is not a fresh NewInfiniteGasMeter: if it is bounded, reading the state panics once it outgrows the budget")
+			}
+		})
+	}
+	r.Ok(rule, "scope:no-bounded-meter", "", fmt.Sprintf("%d functions in BeginBlock scope examined, %d gas-meter sites", len(funcs), n))
+	return n
 }
